@@ -822,6 +822,81 @@ fn kf_ods_whitespace_and_comments_between_cells_are_ignored() {
     assert_eq!(b.get_value((1, 1)), Some(&Data::String("d".into())));
 }
 
+// C13 / compound file layouts
+
+/// version-4 compound file (4096-byte sectors) whose only stream is at least 4096 bytes long: no mini stream at all
+fn cfb4_with_workbook(stream: &[u8]) -> Vec<u8> {
+    const FREE: u32 = 0xFFFF_FFFF;
+    const EOC: u32 = 0xFFFF_FFFE;
+    const FATSECT: u32 = 0xFFFF_FFFD;
+    let mut stream = stream.to_vec();
+    let size = stream.len().max(4096).next_multiple_of(4096);
+    stream.resize(size, 0);
+    let n = size / 4096;
+    let mut h = vec![0u8; 4096];
+    h[..8].copy_from_slice(&[0xD0, 0xCF, 0x11, 0xE0, 0xA1, 0xB1, 0x1A, 0xE1]);
+    h[24..26].copy_from_slice(&0x003Eu16.to_le_bytes());
+    h[26..28].copy_from_slice(&4u16.to_le_bytes());
+    h[28..30].copy_from_slice(&0xFFFEu16.to_le_bytes());
+    h[30..32].copy_from_slice(&0x000Cu16.to_le_bytes());
+    h[32..34].copy_from_slice(&6u16.to_le_bytes());
+    h[40..44].copy_from_slice(&1u32.to_le_bytes()); // directory sectors
+    h[44..48].copy_from_slice(&1u32.to_le_bytes()); // FAT sectors
+    h[48..52].copy_from_slice(&1u32.to_le_bytes()); // first directory sector
+    h[56..60].copy_from_slice(&4096u32.to_le_bytes());
+    h[60..64].copy_from_slice(&EOC.to_le_bytes()); // no mini FAT
+    h[68..72].copy_from_slice(&EOC.to_le_bytes()); // no DIFAT sector
+    for i in 0..109 {
+        let v = if i == 0 { 0 } else { FREE };
+        h[76 + 4 * i..80 + 4 * i].copy_from_slice(&v.to_le_bytes());
+    }
+    let mut fat = vec![FREE; 1024];
+    fat[0] = FATSECT;
+    fat[1] = EOC;
+    for i in 0..n {
+        fat[2 + i] = if i + 1 == n { EOC } else { 3 + i as u32 };
+    }
+    let dir_entry = |name: &str, typ: u8, child: u32, start: u32, size: u32| {
+        let mut e = vec![0u8; 128];
+        let utf16: Vec<u16> = name.encode_utf16().collect();
+        for (i, c) in utf16.iter().enumerate() {
+            e[2 * i..2 * i + 2].copy_from_slice(&c.to_le_bytes());
+        }
+        e[64..66].copy_from_slice(&((utf16.len() as u16 + 1) * 2).to_le_bytes());
+        e[66] = typ;
+        e[67] = 1;
+        e[68..72].copy_from_slice(&FREE.to_le_bytes());
+        e[72..76].copy_from_slice(&FREE.to_le_bytes());
+        e[76..80].copy_from_slice(&child.to_le_bytes());
+        e[116..120].copy_from_slice(&start.to_le_bytes());
+        e[120..124].copy_from_slice(&size.to_le_bytes());
+        e
+    };
+    let mut out = h;
+    for v in &fat {
+        out.extend_from_slice(&v.to_le_bytes());
+    }
+    let mut dir = dir_entry("Root Entry", 5, 1, EOC, 0); // the root has no mini stream: start = ENDOFCHAIN
+    dir.extend(dir_entry("Workbook", 2, FREE, 2, size as u32));
+    dir.resize(4096, 0);
+    out.extend(dir);
+    out.extend(stream);
+    out
+}
+
+#[test]
+fn kf_cfb_v4_container_without_mini_stream() {
+    let recs = vec![number_rec(0, 0, 0, 42.0)];
+    let stream = workbook_stream(&[], &[0], &recs);
+    // the same stream in a 512-byte-sector and in a 4096-byte-sector container
+    let mut a: Xls<_> = Xls::new(Cursor::new(cfb_with_workbook(&stream))).unwrap();
+    let mut b: Xls<_> = Xls::new(Cursor::new(cfb4_with_workbook(&stream))).expect("a version-4 compound file whose streams all live in regular sectors must open");
+    let ra = a.worksheet_range("Sheet1").unwrap();
+    let rb = b.worksheet_range("Sheet1").unwrap();
+    assert_eq!(ra.get_value((0, 0)), Some(&Data::Float(42.0)));
+    assert_eq!(rb.get_value((0, 0)), Some(&Data::Float(42.0)));
+}
+
 // C10 / R-FMT-SCAN
 
 #[test]
